@@ -117,6 +117,7 @@ DEFORMS = {
     "iso-5%": 0.95 * np.eye(3),
     "shear": np.array([[1.0, 0.04, 0.0], [0.04, 1.0, 0.0], [0.0, 0.0, 1.0]]),
     "general": np.array([[1.03, 0.02, -0.01], [0.02, 0.97, 0.015], [-0.01, 0.015, 1.01]]),
+    "upper-triangular": np.array([[1.02, 0.03, -0.01], [0.0, 0.98, 0.02], [0.0, 0.0, 1.01]]),
 }
 N_GRID = [0, 1, 2, 5, 50]
 P_GRID = [0.0, 0.01, -0.01, 1.0]
@@ -221,8 +222,9 @@ def task_npt(arg):
                         t_iso, err = capture(crit, ctx)
                         judge(t_iso, err, logA_npt, 1e-9, "C02/isobaric", where, add, counters, crit, ctx)
                         # isotension, hydrostatic stress: identical to isobaric
-                        for sname in ("hydrostatic", "zero", "diag", "sheared"):
+                        for sname in ("hydrostatic", "zero", "diag", "sheared", "nonsymmetric"):
                             S = {
+                                "nonsymmetric": np.array([[0.01, 0.004, 0.0], [0.001, 0.02, -0.003], [0.002, 0.0, 0.005]]),
                                 "hydrostatic": P * np.eye(3),
                                 "zero": np.zeros((3, 3)),
                                 "diag": np.diag([0.01, 0.02, -0.005]),
@@ -390,6 +392,7 @@ REAL_SPECS = [
     dict(ens="GrandCanonical", atoms="M1", table=[["e", "E_transrot"]], calc="harmonic", T=300.0, mu=-0.1, depth=2, tag="molecular-exchange"),
     dict(ens="GrandCanonical", atoms="M", table=[["e", "E_transrot"], ["d", "D_rot"]], calc="harmonic", T=400.0, mu=-0.05, depth=2, tag="molecular-exchange+rotation"),
     dict(ens="GrandCanonical", atoms="A2", table=[["e", "E_trans"], ["d", "D_ball"]], calc="harmonic", T=300.0, mu=-0.1, depth=2, check=True, tag="atomic-exchange+displacement"),
+    dict(ens="GrandCanonical", atoms="A2", table=[["e", "E_trans*2"], ["f", "E_trans"]], calc="harmonic", T=300.0, mu=-0.1, depth=2, check=True, tag="composite-exchange-vetoed-members"),
     dict(ens="HamiltonianCanonical", atoms="A3", table=[["h", "H"]], calc="harmonic", T=300.0, depth=2, check=True, tag="hamiltonian-vetoed-attempts"),
     dict(ens="HamiltonianCanonical", atoms="A3", table=[["h", "H1"], ["d", "D_ball"]], calc="quartic", T=500.0, depth=2, decos=["momenta"], tag="hamiltonian+displacement"),
     dict(ens="Canonical", atoms="M", table=[["r", "D_rot"], ["t", "D_trans"]], calc="harmonic", T=300.0, depth=2, check=True, tag="canonical-molecule"),
@@ -491,6 +494,8 @@ def task_real(spec):
             if ens == "GrandCanonical" and dn:
                 k = dn // info["template"]
                 if abs(k) != 1:
+                    if t.verdict is True:
+                        N += k
                     continue  # several particles in one trial: not a clause of the statement
                 L3 = lam_cubed(info["template_mass"], T)
                 V, mu = info["V"], spec["mu"]
